@@ -269,6 +269,13 @@ def _validate_params_with_signature(
     # Get list of valid parameter names and analyze signature
     params_by_name = signature.parameters
     valid_params = list(params_by_name.keys())
+    # Names that can be set with a keyword. As in Python, the name of a positional-only parameter
+    # is NOT one of them: such a keyword belongs to `**kwargs` (or is an error without `**kwargs`).
+    keyword_params = [
+        name
+        for name, signature_param in params_by_name.items()
+        if signature_param.kind in (inspect.Parameter.POSITIONAL_OR_KEYWORD, inspect.Parameter.KEYWORD_ONLY)
+    ]
 
     # Check if function accepts variable arguments (*args, **kwargs)
     has_var_positional = any(param.kind == inspect.Parameter.VAR_POSITIONAL for param in params_by_name.values())
@@ -311,7 +318,9 @@ def _validate_params_with_signature(
                 # Check if this parameter was already provided as a kwarg
                 if param_name in used_param_names:
                     raise TypeError(f"got multiple values for argument '{param_name}'")
-                used_param_names.add(param_name)
+                # NOTE: The name of a positional-only parameter stays free for `**kwargs`
+                if param_name in keyword_params:
+                    used_param_names.add(param_name)
 
             validated_args.append(param.value)
             next_positional_index += 1
@@ -324,7 +333,7 @@ def _validate_params_with_signature(
                 raise TypeError(f"got multiple values for argument '{param.key}'")
 
             # Validate kwarg names if the function doesn't accept **kwargs
-            if not has_var_keyword and param.key not in valid_params:
+            if not has_var_keyword and param.key not in keyword_params:
                 raise TypeError(f"got an unexpected keyword argument '{param.key}'")
 
             validated_kwargs[param.key] = param.value
@@ -337,21 +346,21 @@ def _validate_params_with_signature(
             raise TypeError(f"got an unexpected keyword argument '{first_key}'")
         validated_kwargs.update(extra_kwargs)
 
-    # Check for missing required arguments and apply defaults
-    for param_name, signature_param in params_by_name.items():
-        if param_name in used_param_names or param_name in validated_kwargs:
+    # Check for missing required arguments. Defaults are NOT passed on - Python applies them
+    # when the function is called (passing them by keyword breaks positional-only parameters).
+    for i, (param_name, signature_param) in enumerate(params_by_name.items()):
+        if signature_param.kind in (inspect.Parameter.POSITIONAL_ONLY, inspect.Parameter.POSITIONAL_OR_KEYWORD):
+            # Positional parameters come first in the signature, so `i` is the positional index
+            was_given = i < len(validated_args) or (
+                signature_param.kind == inspect.Parameter.POSITIONAL_OR_KEYWORD and param_name in validated_kwargs
+            )
+        elif signature_param.kind == inspect.Parameter.KEYWORD_ONLY:
+            was_given = param_name in validated_kwargs
+        else:
             continue
 
-        if signature_param.kind in (inspect.Parameter.POSITIONAL_ONLY, inspect.Parameter.POSITIONAL_OR_KEYWORD):
-            if signature_param.default == inspect.Parameter.empty:
-                raise TypeError(f"missing a required argument: '{param_name}'")
-            elif len(validated_args) <= next_positional_index:
-                validated_kwargs[param_name] = signature_param.default
-        elif signature_param.kind == inspect.Parameter.KEYWORD_ONLY:
-            if signature_param.default == inspect.Parameter.empty:
-                raise TypeError(f"missing a required argument: '{param_name}'")
-            else:
-                validated_kwargs[param_name] = signature_param.default
+        if not was_given and signature_param.default == inspect.Parameter.empty:
+            raise TypeError(f"missing a required argument: '{param_name}'")
 
     # Return args and kwargs
     return validated_args, validated_kwargs
@@ -384,6 +393,10 @@ def _validate_params_with_code(
     skip_params = 2
     param_names = param_names[skip_params:]
     positional_count = max(0, positional_count - skip_params)
+    posonly_count = max(0, getattr(code, "co_posonlyargcount", 0) - skip_params)
+    # Names that can be set with a keyword. As in Python, the name of a positional-only parameter
+    # is NOT one of them: such a keyword belongs to `**kwargs` (or is an error without `**kwargs`).
+    keyword_names = param_names[posonly_count : positional_count + kwonly_count]
 
     # Calculate required counts
     num_defaults = len(defaults)
@@ -414,7 +427,9 @@ def _validate_params_with_code(
                 param_name = param_names[next_positional_index]
                 if param_name in used_param_names:
                     raise TypeError(f"got multiple values for argument '{param_name}'")
-                used_param_names.add(param_name)
+                # NOTE: The name of a positional-only parameter stays free for `**kwargs`
+                if next_positional_index >= posonly_count:
+                    used_param_names.add(param_name)
 
             validated_args.append(param.value)
             next_positional_index += 1
@@ -427,9 +442,7 @@ def _validate_params_with_code(
                 raise TypeError(f"got multiple values for argument '{param.key}'")
 
             # Validate kwarg names
-            is_valid_kwarg = param.key in param_names[: positional_count + kwonly_count] or (  # Regular param
-                has_var_keyword and param.key not in param_names
-            )  # **kwargs param
+            is_valid_kwarg = param.key in keyword_names or has_var_keyword  # Regular param or **kwargs param
             if not is_valid_kwarg:
                 raise TypeError(f"got an unexpected keyword argument '{param.key}'")
 
@@ -443,21 +456,15 @@ def _validate_params_with_code(
             raise TypeError(f"got an unexpected keyword argument '{first_key}'")
         validated_kwargs.update(extra_kwargs)
 
-    # Check for missing required arguments and apply defaults
+    # Check for missing required arguments. Defaults are NOT passed on - Python applies them
+    # when the function is called (passing them by keyword breaks positional-only parameters).
     for i, param_name in enumerate(param_names):
-        if param_name in used_param_names or param_name in validated_kwargs:
-            continue
-
         if i < positional_count:  # Positional parameter
-            if i < required_positional:
+            was_given = i < len(validated_args) or (i >= posonly_count and param_name in validated_kwargs)
+            if not was_given and i < required_positional:
                 raise TypeError(f"missing a required argument: '{param_name}'")
-            elif len(validated_args) <= i:
-                default_index = i - required_positional
-                validated_kwargs[param_name] = defaults[default_index]
         elif i < positional_count + kwonly_count:  # Keyword-only parameter
-            if param_name not in kwdefaults:
+            if param_name not in validated_kwargs and param_name not in kwdefaults:
                 raise TypeError(f"missing a required argument: '{param_name}'")
-            else:
-                validated_kwargs[param_name] = kwdefaults[param_name]
 
     return tuple(validated_args), validated_kwargs
